@@ -3,6 +3,7 @@
 -/
 import DuckModel.Sdk.Strings
 import DuckModel.Lemmas.Utf8Lemmas
+import DuckModel.Lemmas.Utf8DecodeLemmas
 
 namespace Duck.Strings
 open Duck
@@ -351,5 +352,114 @@ theorem takeWhile_all {l : List Char} (h : l.all isDigit = true) :
   | cons c r ih =>
     simp only [List.all_cons, Bool.and_eq_true] at h
     simp [h.1, ih h.2]
+
+/-! ### helpers of the C16 property theorems -/
+
+theorem intercalate_nil_sep {α} : ∀ (l : List (List α)), ([] : List α).intercalate l = l.flatten
+  | [] => by simp [List.intercalate]
+  | [a] => by simp
+  | a :: b :: r => by rw [intercalate_cons_cons, intercalate_nil_sep (b :: r)]; simp
+
+theorem intercalate_map_trailing {α β} (f : β → List α) (to : List α) : ∀ (s : List β),
+    to.intercalate (s.map f ++ [[]]) = s.flatMap (fun c => f c ++ to)
+  | [] => by simp
+  | c :: r => by
+    have hne : r.map f ++ [[]] ≠ [] := by simp
+    rw [List.map_cons, List.cons_append, intercalate_cons_of_ne_nil _ _ hne,
+      intercalate_map_trailing f to r]
+    simp
+
+/-- the encoder is injective (from the decoder round trip): equal bytes, equal texts -/
+theorem utf8Encode_injective {s t : Str} (h : utf8Encode s = utf8Encode t) : s = t := by
+  have h1 := utf8_roundtrip s
+  rw [h, utf8_roundtrip t] at h1
+  exact (Option.some.inj h1).symm
+
+theorem takeWhile_all_ws (p : Char → Bool) : ∀ (l : List Char), ∀ c ∈ l.takeWhile p, p c = true
+  | [] => by simp
+  | a :: r => by
+    intro c hc
+    by_cases h : p a = true
+    · simp only [List.takeWhile_cons_of_pos h, List.mem_cons] at hc
+      rcases hc with hc | hc
+      · rw [hc]; exact h
+      · exact takeWhile_all_ws p r c hc
+    · simp [List.takeWhile_cons_of_neg h] at hc
+
+theorem dropWhile_head_not (p : Char → Bool) : ∀ (l : List Char) (c : Char) (r : List Char),
+    l.dropWhile p = c :: r → p c = false
+  | [], _, _ => by simp
+  | a :: t, c, r => by
+    intro h
+    by_cases ha : p a = true
+    · rw [List.dropWhile_cons_of_pos ha] at h
+      exact dropWhile_head_not p t c r h
+    · rw [List.dropWhile_cons_of_neg ha] at h
+      cases h
+      simpa using ha
+
+theorem classify_int {s : Str} {v : Int} (h : parseInt s = some v) :
+    ∃ d, classifyF64 s = .dec d ∧ d.scale = 0 ∧ d.num = v ∧ d.ndigits ≤ s.length := by
+  cases s with
+  | nil => simp [parseInt] at h
+  | cons c r =>
+    -- the digits after the optional sign
+    have body : ∀ (neg : Bool) (l : List Char), l ≠ [] → l.all isDigit = true →
+        (l = (if c = '-' ∨ c = '+' then r else c :: r)) → (neg = decide (c = '-')) →
+        ∃ d, classifyF64 (c :: r) = .dec d ∧ d.scale = 0 ∧
+          d.num = (if neg then - (digitsVal l : Int) else digitsVal l) ∧ d.ndigits = l.length := by
+      intro neg l hne hall hl hneg
+      obtain ⟨htw, hdw⟩ := takeWhile_all hall
+      refine ⟨{ neg := neg, mant := digitsVal l, scale := 0, ndigits := l.length }, ?_, rfl, rfl, rfl⟩
+      unfold classifyF64
+      simp only [← hl, htw, hdw]
+      rw [if_neg hne]
+      have : ¬ (l.length + 0 = 0) := by
+        have := List.length_pos_iff.mpr hne
+        omega
+      simp [hneg, hne]
+    simp only [parseInt] at h
+    by_cases hp : c = '+'
+    · subst hp
+      simp only [if_true] at h
+      cases hd : parseDigits r with
+      | none => simp [hd] at h
+      | some n =>
+        simp [hd] at h
+        unfold parseDigits at hd
+        split at hd
+        · rename_i hc
+          cases hd
+          obtain ⟨d, h1, h2, h3, h4⟩ := body false r hc.1 hc.2 (by simp) (by decide)
+          exact ⟨d, h1, h2, by rw [h3, ← h]; rfl, by simp [h4]⟩
+        · cases hd
+    · rw [if_neg hp] at h
+      by_cases hm : c = '-'
+      · subst hm
+        simp only [if_true] at h
+        cases hd : parseDigits r with
+        | none => simp [hd] at h
+        | some n =>
+          simp [hd] at h
+          unfold parseDigits at hd
+          split at hd
+          · rename_i hc
+            cases hd
+            obtain ⟨d, h1, h2, h3, h4⟩ := body true r hc.1 hc.2 (by simp) (by decide)
+            exact ⟨d, h1, h2, by rw [h3, ← h]; rfl, by simp [h4]⟩
+          · cases hd
+      · rw [if_neg hm] at h
+        cases hd : parseDigits (c :: r) with
+        | none => simp [hd] at h
+        | some n =>
+          simp [hd] at h
+          unfold parseDigits at hd
+          split at hd
+          · rename_i hc
+            cases hd
+            obtain ⟨d, h1, h2, h3, h4⟩ :=
+              body false (c :: r) hc.1 hc.2 (by simp [hp, hm]) (by simp [hm])
+            exact ⟨d, h1, h2, by rw [h3, ← h]; rfl, by simp [h4]⟩
+          · cases hd
 
 end Duck.Strings
